@@ -196,6 +196,30 @@ def inprocess_tree(job):
                 d = realflow.diff_snapshots(ref, realflow.snapshot(out + "-second"))
             if d:
                 bad.append((cfg, f"tree '{name}': output differs when generated into a {config} directory / second run: {d[:4]}"))
+        # one generator OBJECT, two different trees: it first generates an earlier version of the tree (enum ordinals
+        # renumbered, one field more in every struct), the files are then replaced by the real tree and it generates
+        # again - the second output must be what a fresh object produces from the real tree
+        earlier = _earlier_version(files)
+        if earlier is not None:
+            out = os.path.join(work, "r")
+            shutil.rmtree(out, ignore_errors=True)
+            xml2 = os.path.join(work, "xml-reuse")
+            shutil.rmtree(xml2, ignore_errors=True)
+            genpipe.write_tree(earlier, xml2, n_families=nf)
+
+            def rewrite():
+                shutil.rmtree(xml2)
+                genpipe.write_tree(files, xml2, n_families=nf)
+
+            how, err = genpipe.run_generator_twice(xml2, out, rewrite)
+            runs += 2
+            cfg = {"tree": name, "config": "reused-object-after-edit"}
+            if how == "raised":
+                bad.append((cfg, f"tree '{name}': a generator object that generated an earlier version of the tree fails on the current one: {type(err).__name__}: {err}"))
+            elif how == "returned":
+                d = realflow.diff_snapshots(ref, realflow.snapshot(os.path.join(out, "second")))
+                if d:
+                    bad.append((cfg, f"tree '{name}': output differs when the generator object generated an earlier version of the tree before (enum ordinals renumbered, structs one field longer): {d[:4]}"))
         # how the caller SPELLS the two directories is an environment answer too: relative to the working directory,
         # ".", with "./" and "../" components - the output must be the same files
         base = os.path.basename(work)
@@ -228,6 +252,34 @@ def inprocess_tree(job):
         return name, runs, bad
     finally:
         shutil.rmtree(work, ignore_errors=True)
+
+
+def _earlier_version(files):
+    """The same declarations with every enum's non-zero ordinals shifted by one and a field appended to every struct
+    (None if the shift would collide or leave the wire range - then the configuration is skipped for this tree)."""
+    from ..specs import field
+
+    out = {}
+    for d, nodes in files.items():
+        new = []
+        for n in nodes:
+            c = n.copy()
+            if c.tag == "enum":
+                vals = [int(v.text) for v in c.kids if v.tag == "value"]
+                shifted = [v + 1 if v else v for v in vals]
+                if len(set(shifted)) != len(shifted) or max(shifted, default=0) >= 250:
+                    return None
+                for v in c.kids:
+                    if v.tag == "value" and int(v.text):
+                        v.text = str(int(v.text) + 1)
+            elif c.tag == "struct" and not any(k.tag in ("dummy",) for k in c.walk()):
+                if any(k.tag == "chunked" for k in c.kids) or any((k.get("optional") or "") == "true" for k in c.kids) or (c.kids and c.kids[-1].tag in ("array", "switch", "field") and c.kids[-1].get("length") is None and c.kids[-1].get("type") in ("string", "encoded_string", "blob", None)):
+                    pass
+                else:
+                    c.kids.append(field("zz_earlier", "char"))
+            new.append(c)
+        out[d] = new
+    return out
 
 
 def _probe_orders(in_dir, chooser):
